@@ -336,57 +336,143 @@ def _tree_runs(ctx):
 # ---------------------------------------------------------------------------------------------------------------------
 # search / pre-filter
 
-def base_patterns(ser):
-    """[(name, real pattern, json pattern, type_exact)]"""
+def _cb_is_name_or_const(f):
+    a = getattr(f, 'a', f)
+    return isinstance(a, (ast.Name, ast.Constant))
+
+
+def bases(ser):
+    """{name: (class, real factory, json | None)}; class in exact | field | instance | ctxinst | opaque.
+    json None = not modelled (checked against the walk oracle only)."""
+    import re as _re
     from fst import match as M
     n = ser.num
     P = ser.prim
-    out = [
-        ('...', ..., ['wild'], True),
-        ('Name', ast.Name, ['type', n[ast.Name]], True),
-        ('expr', ast.expr, ['type', n[ast.expr]], True),
-        ('stmt', ast.stmt, ['type', n[ast.stmt]], True),
-        ('Constant', M.MConstant, ['type', n[ast.Constant]], True),
-        ('MTYPES(Name,Call)', M.MTYPES((ast.Name, ast.Call)), ['types', [n[ast.Name], n[ast.Call]]], True),
-        ('MTYPES(expr_context,operator)', M.MTYPES((ast.expr_context, ast.operator)), ['types', [n[ast.expr_context], n[ast.operator]]], True),
-        ('MName(x)', M.MName('x'), ['node', n[ast.Name], [['node', P('x'), []], ['wild']]], False),
-        ('MName(a)', M.MName(id='a'), ['node', n[ast.Name], [['node', P('a'), []], ['wild']]], False),
-        ('MConstant(1)', M.MConstant(1), ['node', n[ast.Constant], [['node', P(1), []], ['wild']]], False),
-        ('MBinOp(op=Add)', M.MBinOp(op=ast.Add), ['node', n[ast.BinOp], [['wild'], ['type', n[ast.Add]], ['wild']]], False),
-        ('MReturn(value=None)', M.MReturn(value=None), ['node', n[ast.Return], [['node', ser.NONE, []]]], False),
-        ('MExpr(Call)', M.MExpr(value=ast.Call), ['node', n[ast.Expr], [['type', n[ast.Call]]]], False),
-    ]
-    return out
+    ectx = ['type', n[ast.expr_context]]
+    return {
+        # decided by the node type alone
+        '...': ('exact', lambda: ..., ['wild']),
+        'Name': ('exact', lambda: ast.Name, ['type', n[ast.Name]]),
+        'expr': ('exact', lambda: ast.expr, ['type', n[ast.expr]]),
+        'stmt': ('exact', lambda: ast.stmt, ['type', n[ast.stmt]]),
+        'expr_context': ('exact', lambda: ast.expr_context, ['type', n[ast.expr_context]]),
+        'MConstant': ('exact', lambda: M.MConstant, ['type', n[ast.Constant]]),
+        'MTYPES(Name,Call)': ('exact', lambda: M.MTYPES((ast.Name, ast.Call)), ['types', [n[ast.Name], n[ast.Call]]]),
+        'MTYPES(expr_context,operator)': ('exact', lambda: M.MTYPES((ast.expr_context, ast.operator)),
+                                          ['types', [n[ast.expr_context], n[ast.operator]]]),
+        'MTYPES(MName)': ('exact', lambda: M.MTYPES((M.MName,)), ['types', [n[ast.Name]]]),
+        # type plus field constraints
+        'MName(x)': ('field', lambda: M.MName('x'), ['node', n[ast.Name], [['node', P('x'), []], ['wild']]]),
+        'MName(a)': ('field', lambda: M.MName(id='a'), ['node', n[ast.Name], [['node', P('a'), []], ['wild']]]),
+        'MConstant(1)': ('field', lambda: M.MConstant(1), ['node', n[ast.Constant], [['node', P(1), []], ['wild']]]),
+        'MBinOp(op=Add)': ('field', lambda: M.MBinOp(op=ast.Add), ['node', n[ast.BinOp], [['wild'], ['type', n[ast.Add]], ['wild']]]),
+        'MReturn(None)': ('field', lambda: M.MReturn(value=None), ['node', n[ast.Return], [['node', ser.NONE, []]]]),
+        'MExpr(Call)': ('field', lambda: M.MExpr(value=ast.Call), ['node', n[ast.Expr], [['type', n[ast.Call]]]]),
+        'MTYPES(Name;id=x)': ('field', lambda: M.MTYPES((ast.Name,), id='x'),
+                              ['typesF', [n[ast.Name]], n[ast.Name], [['node', P('x'), []], ['wild']]]),
+        'MTYPES(Name,Constant;id=a)': ('field', lambda: M.MTYPES((ast.Name, ast.Constant), id='a'),
+                                       ['typesF', [n[ast.Name], n[ast.Constant]], n[ast.Name], [['node', P('a'), []], ['wild']]]),
+        'MTYPES(expr;value=1)': ('field', lambda: M.MTYPES((ast.expr,), value=1, kind=...),
+                                 ['typesF', [n[ast.expr]], n[ast.Constant], [['node', P(1), []], ['wild']]]),
+        # AST instances
+        'Name(a)': ('instance', lambda: ast.Name(id='a', ctx=ast.Load()), ['node', n[ast.Name], [['node', P('a'), []], ectx]]),
+        'Constant(1)': ('instance', lambda: ast.Constant(value=1), ['node', n[ast.Constant], [['node', P(1), []], ['node', ser.NONE, []]]]),
+        'Pass()': ('instance', lambda: ast.Pass(), ['node', n[ast.Pass], []]),
+        'Add()': ('instance', lambda: ast.Add(), ['node', n[ast.Add], []]),
+        'Load()': ('ctxinst', lambda: ast.Load(), ['ctx']),
+        'Store()': ('ctxinst', lambda: ast.Store(), ['ctx']),
+        'Del()': ('ctxinst', lambda: ast.Del(), ['ctx']),
+        # not modelled: source text / callback
+        "'a'": ('opaque', lambda: 'a', None),
+        're(a|x)': ('opaque', lambda: _re.compile('a|x'), None),
+        'MRE(^[ab]$)': ('opaque', lambda: M.MRE('^[ab]$'), None),
+        'MCB(Name|Constant)': ('opaque', lambda: M.MCB(_cb_is_name_or_const), None),
+    }
 
 
-def combos(ser, rng, limit):
-    """[(name, real, json|None, culprit)] culprit = 'MNOT' when an MNOT covers a pattern that is not type-exact"""
+UNARY = ['M', 'Mt', 'MNOT', 'MNOTt', 'MMAYBE', 'SELFREF']
+BINARY = ['MOR', 'MAND', 'MORt', 'MANDt']
+
+
+def _build(spec, B):
+    """spec -> (real pattern, json | None, flags).  spec: ['base', name] | [unary, spec] | [binary, spec, spec] | ['MTAG']"""
     from fst import match as M
-    B = base_patterns(ser)
-    out = []
+    op = spec[0]
+    if op == 'base':
+        cls, mk, js = B[spec[1]]
+        return mk(), js, ({'ctxinst'} if cls == 'ctxinst' else set())
+    if op == 'MTAG':
+        return M.MTAG(tname(0)), ['ref', 0], set()
+    if op in UNARY:
+        r, j, fl = build(spec[1], B)
+        if op == 'M':
+            return M.M(r), j and ['m', j, None, []], fl
+        if op == 'Mt':
+            return M.M(**{tname(0): r, tname(1): 3}), j and ['m', j, 0, [[1, 3]]], fl
+        if op == 'MNOT':
+            return M.MNOT(r), j and ['mnot', j, None, []], set()       # MNOT of a non-type pattern: every node type
+        if op == 'MNOTt':
+            return M.MNOT(**{tname(2): r}), j and ['mnot', j, 2, []], set()
+        if op == 'MMAYBE':
+            return M.MMAYBE(r), j and ['mmaybe', j, None, []], set()
+        if op == 'SELFREF':
+            return (M.MAND(M.M(**{tname(0): r}), M.MTAG(tname(0))),
+                    j and ['mand', [[None, ['m', j, 0, []]], [None, ['ref', 0]]]], fl)
+    if op in BINARY:
+        r1, j1, f1 = build(spec[1], B)
+        r2, j2, f2 = build(spec[2], B)
+        jj = bool(j1) and bool(j2)
+        if op == 'MOR':
+            return M.MOR(r1, r2), jj and ['mor', [[None, j1], [None, j2]]], f1 | f2
+        if op == 'MORt':
+            return M.MOR(r1, **{tname(1): r2}), jj and ['mor', [[None, j1], [1, j2]]], f1 | f2
+        if op == 'MAND':
+            return M.MAND(r1, r2), jj and ['mand', [[None, j1], [None, j2]]], f1 | f2
+        if op == 'MANDt':
+            return M.MAND(r1, **{tname(1): r2}), jj and ['mand', [[None, j1], [1, j2]]], f1 | f2
+    raise ValueError(spec)
 
-    def add(name, real, js, culprit):
-        out.append((name, real, js, culprit))
 
-    for nm, r, j, ex in B:
-        add(nm, r, j, None)
-        add(f'M({nm})', M.M(r), j and ['m', j, None, []], None)
-        add(f'M(t0={nm})', M.M(**{tname(0): r}), j and ['m', j, 0, []], None)
-        add(f'MNOT({nm})', M.MNOT(r), j and ['mnot', j, None, []], None if ex else 'MNOT')
-        add(f'MNOT(MNOT({nm}))', M.MNOT(M.MNOT(r)), j and ['mnot', ['mnot', j, None, []], None, []], None if ex else 'MNOT')
-        add(f'MMAYBE({nm})', M.MMAYBE(r), j and ['mmaybe', j, None, []], None)
-    pairs = [(x, y) for x in B for y in B if x is not y]
-    rng.shuffle(pairs)
-    for (n1, r1, j1, e1), (n2, r2, j2, e2) in pairs[:limit]:
-        jj = j1 is not None and j2 is not None
-        add(f'MOR({n1},{n2})', M.MOR(r1, r2), jj and ['mor', [[None, j1], [None, j2]]], None)
-        add(f'MAND({n1},{n2})', M.MAND(r1, r2), jj and ['mand', [[None, j1], [None, j2]]], None)
-        add(f'MOR(MNOT({n1}),{n2})', M.MOR(M.MNOT(r1), r2), jj and ['mor', [[None, ['mnot', j1, None, []]], [None, j2]]], None if e1 else 'MNOT')
-        add(f'MAND(MNOT({n1}),{n2})', M.MAND(M.MNOT(r1), r2), jj and ['mand', [[None, ['mnot', j1, None, []]], [None, j2]]], None if e1 else 'MNOT')
-        add(f'MNOT(MOR({n1},{n2}))', M.MNOT(M.MOR(r1, r2)), jj and ['mnot', ['mor', [[None, j1], [None, j2]]], None, []],
-            None if (e1 and e2) else 'MNOT')
-        add(f'MNOT(MAND({n1},{n2}))', M.MNOT(M.MAND(r1, r2)), jj and ['mnot', ['mand', [[None, j1], [None, j2]]], None, []],
-            None if (e1 and e2) else 'MNOT')
+def build(spec, B):    # noqa: F811
+    r, j, fl = _build(spec, B)
+    return r, (j or None), fl
+
+
+def spec_name(spec):
+    if spec[0] == 'base':
+        return spec[1]
+    if spec[0] == 'MTAG':
+        return 'MTAG'
+    return spec[0] + '(' + ','.join(spec_name(x) for x in spec[1:]) + ')'
+
+
+def gen_specs(B, rng, n2, n3):
+    """every base, every unary combinator over every base (deterministic), sampled binary combinations and
+    two-level nestings"""
+    names = list(B)
+    out = [['base', nm] for nm in names] + [['MTAG']]
+    lvl1 = [[u, ['base', nm]] for u in UNARY for nm in names]
+    out += lvl1
+
+    def rbase():
+        return ['base', rng.choice(names)]
+
+    def rl1():
+        c = rng.random()
+        if c < 0.6:
+            return [rng.choice(UNARY), rbase()]
+        return [rng.choice(BINARY), rbase(), rbase()]
+
+    for _ in range(n2):
+        out.append([rng.choice(BINARY), rbase(), rbase()])
+    for _ in range(n3):
+        c = rng.random()
+        if c < 0.5:
+            out.append([rng.choice(UNARY), rl1()])
+        elif c < 0.75:
+            out.append([rng.choice(BINARY), rl1(), rbase()])
+        else:
+            out.append([rng.choice(BINARY), rbase(), rl1()])
     return out
 
 
@@ -396,6 +482,12 @@ def real_leaf(pat, ser):
     if la is None:
         return None
     return sorted(ser.num[c] for c in la if c in ser.num)
+
+
+def _run_search(root, ids, walk, real):
+    found = [ids[id(m.matched.a)] for m in root.search(real)]
+    want = [ids[id(g.a)] for g in walk if _m(real, g) is not None]
+    return found, want
 
 
 def _search_case(arg):
@@ -410,16 +502,20 @@ def _search_case(arg):
     ser = L.TreeSer()
     tree = ser.tree(root.a)
     ids = ser.ids
+    kinds = {ids[id(g.a)]: g.a.__class__ for g in root.walk(True)}
     walk = list(root.walk(True))
-    for name, real, js, culprit in combos(ser, rng, 6 if quick else 25):
+    B = bases(ser)
+    for spec in gen_specs(B, rng, 10 if quick else 25, 25 if quick else 60):
+        name = spec_name(spec)
+        real, js, flags = build(spec, B)
         try:
-            found = [ids[id(m.matched.a)] for m in root.search(real)]
+            found, want = _run_search(root, ids, walk, real)
         except Exception as e:      # noqa: BLE001
-            out.append({'name': name, 'exc': type(e).__name__ + ': ' + str(e)[:100], 'src': src})
+            out.append({'name': name, 'spec': spec, 'exc': type(e).__name__ + ': ' + str(e)[:100], 'src': src})
             continue
-        want = [ids[id(g.a)] for g in walk if _m(real, g) is not None]
-        item = {'name': name, 'found': found, 'want': want, 'culprit': culprit, 'src': src,
-                'leaf': real_leaf(real, ser)}
+        missing = [x for x in want if x not in found]
+        item = {'name': name, 'spec': spec, 'found': found, 'want': want, 'src': src, 'leaf': real_leaf(real, ser),
+                'ctxinst': 'ctxinst' in flags, 'missing_all_ctx': all(issubclass(kinds[x], ast.expr_context) for x in missing)}
         if js:
             item['case'] = {'f': 'C17.search', 'p': js, 't': tree}
         out.append(item)
@@ -435,7 +531,7 @@ def _m(pat, g):
 
 def _search_runs(ctx):
     if getattr(ctx, '_c17_search', None) is None:
-        progs = _programs(ctx, 60 if ctx.quick else 500)
+        progs = _programs(ctx, 60 if ctx.quick else 200)
         res = pmap(_search_case, [(p, ctx.rng.randrange(1 << 30), ctx.quick) for p in progs])
         ctx._c17_search = [it for lst in res for it in lst]
     return ctx._c17_search
@@ -538,7 +634,8 @@ def sweep(ctx):
     for it in _search_runs(ctx):
         ctx.count(None)
         if 'exc' in it:
-            ctx.fail(f'C17|search|{_top(it["name"])}|raised', f'search({it["name"]}) raised {it["exc"]}', {'kind': 'search', 'src': it['src'], 'pattern': it['name']})
+            ctx.fail(f'C17|search|{_top(it["name"])}|raised', f'search({it["name"]}) raised {it["exc"]}',
+                     {'kind': 'search', 'src': it['src'], 'spec': it['spec'], 'pattern': it['name']})
             continue
         ctx.tally('search_pattern', _top(it['name']))
         if it['found'] == it['want']:
@@ -548,7 +645,10 @@ def sweep(ctx):
         mo = model.get(id(it))
         explained = isinstance(mo, dict) and sorted(mo.get('found', ['x'])) == sorted(it['found'])
         if missing and not extra:
-            culprit = it['culprit'] or _top(it['name'])
+            if it.get('ctxinst') and it.get('missing_all_ctx'):
+                culprit = 'expr_context-instance'      # C17-F6
+            else:
+                culprit = _top(it['name'])
             sig = f'C17|search-prefilter|{culprit}|missed-node'
         elif extra:
             sig = f'C17|search|{_top(it["name"])}|extra-node'
@@ -559,7 +659,7 @@ def sweep(ctx):
         seen[sig] = seen.get(sig, 0) + 1
         if seen[sig] <= 3:
             ctx.fail(sig, f'search({it["name"]}) yields nodes {it["found"]}, walk filtered by match gives {it["want"]}',
-                     {'kind': 'search', 'src': it['src'], 'pattern': it['name']})
+                     {'kind': 'search', 'src': it['src'], 'spec': it['spec'], 'pattern': it['name']})
     ctx.notes['search_failures_by_signature'] = seen
     _unsound_table_entries(ctx)
 
@@ -598,14 +698,10 @@ def replay(ctx, w):
         root = FST(w['src'], 'exec')
         ser = L.TreeSer()
         ser.tree(root.a)
-        for name, real, js, culprit in combos(ser, random.Random(0), 10 ** 6):
-            if name == w['pattern']:
-                found = [m.matched for m in root.search(real)]
-                want = [g for g in root.walk(True) if _m(real, g) is not None]
-                if found != want:
-                    ctx.fail('replay', f'search({name}) yields {found}, filtered walk {want}', w)
-                return
-        print('pattern not found in the replay family:', w['pattern'])
+        real, _, _ = build(w['spec'], bases(ser))
+        found, want = _run_search(root, ser.ids, list(root.walk(True)), real)
+        if found != want:
+            ctx.fail('replay', f'search({spec_name(w["spec"])}) yields nodes {found}, walk filtered by match gives {want}', w)
         return
     if kind == 'tree':
         for seed in range(50):
